@@ -27,12 +27,19 @@ def vec_case(draw, ndim=(1, 4), nmin=1, nvdim=None, full_valid=False, bc_ok=True
     dims = gen.dims_of(g)
     k = nd if nvdim is None else nvdim
     vd = draw(gen.vdims_strategy(k)) if k > 1 else (draw(st.sampled_from([None, ["s"]])))
+    mix = ((draw(st.integers(0, 2**40)) + 0x51ED27) * 0x9E3779B97F4A7C15) % 2**64 >> 11
+    if k == nd and k > 1 and mix % 4 == 0:
+        # components named like the spatial directions, in another order: the default mapping is positional
+        vd = [dims[i] for i in draw(st.permutations(range(nd)))]
     labels = vd or gen.default_vdims(k)
     perm = list(draw(st.permutations(range(nd))))
+    default_mapping = k == nd and k > 1 and (mix // 4) % 3 == 0
+    if default_mapping:
+        perm = list(range(nd))  # no mapping given: component c belongs to axis c, whatever the labels are
     single = [d for d in dims if len(d) == 1 and d.islower()]
     bc = "".join(d for d in single if draw(st.booleans())) if (bc_ok and draw(st.integers(0, 1)) == 0) else ""
     ncoef = 1 + nd + nd * (nd + 1) // 2
-    return {"g": g, "k": k, "vdims": vd, "perm": perm, "bc": bc,
+    return {"g": g, "k": k, "vdims": vd, "perm": perm, "bc": bc, "default_mapping": default_mapping,
             "coef": [[draw(st.integers(-3, 3)) for _ in range(ncoef)] for _ in range(k)],
             "seed": draw(st.integers(0, 2**31)), "data": draw(st.sampled_from(["poly", "random"])),
             "mask": ["all"] if full_valid else draw(gen.mask_spec(nd)), "labels": labels,
@@ -119,8 +126,10 @@ def build(case, with_mapping=True):
     kw = {}
     if case["vdims"]:
         kw["vdims"] = list(case["vdims"])
-    if with_mapping and k == nd and (k > 1 or case["vdims"]):
+    if with_mapping and not case.get("default_mapping") and k == nd and (k > 1 or case["vdims"]):
         kw["vdim_mapping"] = mapping_of(case, dims)
+    if case.get("unlabelled") and k > 1:
+        kw = {"vdims": []}  # a vector field whose components carry no labels (and hence no mapping)
     if case.get("offset"):
         # a large constant part (Ms, a far-away coordinate field): the derivatives are those of the polynomial
         arr = arr + case["offset"]
@@ -178,6 +187,18 @@ def check_combination(case):
             if not close(gr.array[..., j], ref, scale):
                 raise Violation("grad-combination", f"component {j} is not the derivative along axis {j}")
         require(np.array_equal(gr.valid, valid), "grad-valid")
+    unlabelled = bool(case.get("unlabelled")) and k > 1
+    if unlabelled:
+        tag("unlabelled")
+        require(f.vdims is None and not f.vdim_mapping, "unlabelled-build", f"{f.vdims} {f.vdim_mapping}")
+        for opname in (["div"] if k == nd else []) + (["curl"] if k == 3 and nd == 3 else []):
+            try:
+                getattr(f, opname)
+            except Exception:  # noqa: BLE001 - components not mapped onto the mesh axes: refused
+                continue
+            raise Violation("unmapped-accepted", f"{opname} of a field without labels and mapping")
+        require(np.array_equal(f.array, arr), "operand-modified")
+        return
     if k == nd and k > 1:
         dv = f.div
         require(dv.nvdim == 1, "div-shape")
@@ -388,6 +409,9 @@ def nt_any(case):
 
 SUBS = [
     Sub("combination", check_combination, vec_case(), nontrivial=nontrivial, quick=250, thorough=1500),
+    Sub("combination-unlabelled", check_combination,
+        st.one_of(vec_case(), vec_case(nvdim=2, ndim=(3, 4)), vec_case(nvdim=3, ndim=(1, 2))).map(lambda c: dict(c, unlabelled=True)),
+        nontrivial=nontrivial, quick=60, thorough=500),
     Sub("combination-scalar", check_combination, vec_case(nvdim=1), nontrivial=nontrivial, quick=120, thorough=800),
     Sub("combination-nvdim", check_combination, vec_case(nvdim=2, ndim=(3, 4)), nontrivial=nontrivial, quick=60,
         thorough=400),
